@@ -203,12 +203,13 @@ def _set_integer_constraints_from_physical_type(expression, physical_type, type_
     #
     # TODO(bolms): Add a scheme for defining integer bounds on user-defined
     # external types.
-    if type_size is None or type_size < 1 or type_size > 64:
+    if type_size is None or type_size < 1 or type_size > 4096:
         # If the type_size is unknown (or is not a possible size), then we can't
         # actually say anything about the minimum and maximum values of the type.
         # For UInt, Int, and Bcd, an error will be thrown during the constraints
-        # check stage.  (No integer type is wider than 64 bits; computing 2**N
-        # for a mistyped width such as `0 [+40000000]  UInt  x` takes hours.)
+        # check stage.  (No integer type is wider than 64 bits, and computing 2**N
+        # for a mistyped width such as `0 [+40000000]  UInt  x` takes hours; the
+        # generous limit keeps the range in the message for `UInt:300`.)
         expression.type.integer.minimum_value = "-infinity"
         expression.type.integer.maximum_value = "infinity"
         return
